@@ -683,6 +683,7 @@ func (d *drv) replaceLeaves(doc *docgen.Doc, hi int, base *obs) {
 				d.rep.Count("replace-different-rejected")
 			}
 		}
+		d.nearMisses(doc, hi, base, lf)
 		// (ii) equivalent spelling -> same root
 		obj, _ = parseDoc(doc.Bytes)
 		sl, sib, ok = nav(obj, lf.DocPath)
@@ -706,6 +707,69 @@ func (d *drv) replaceLeaves(doc *docgen.Doc, hi int, base *obs) {
 				}
 				d.fail(what, failInput{Kind: "pair-same", Class: class, Doc: string(doc.Bytes), Other: string(v), Hasher: hi, Leaf: &lf, Siblings: sib, Lexical: lexical, Duplicate: dup})
 			}
+		}
+	}
+}
+
+// nearMisses: (i') values that look like the original.  String-like leaves: leading /
+// trailing whitespace (space, tab, newline, NBSP), case change, trailing dot, Unicode
+// look-alike are DIFFERENT strings and must change the root.  Typed leaves written as
+// strings (integer, boolean, dateTime, double): a padded lexical form must be an error or
+// denote the same value.  Some of the variant datasets also go to the Coq model.
+func (d *drv) nearMisses(doc *docgen.Doc, hi int, base *obs, lf docgen.Leaf) {
+	rng := d.rng
+	obj, err := parseDoc(doc.Bytes)
+	if err != nil {
+		return
+	}
+	sl, sib, ok := nav(obj, lf.DocPath)
+	if !ok {
+		return
+	}
+	raw, isStr := sl.get().(string)
+	if !isStr {
+		return
+	}
+	switch lf.Kind {
+	case "native-string", "string", "custom", "iri":
+		vs := nearStrings(lf.Kind, raw)
+		rng.Shuffle(len(vs), func(i, j int) { vs[i], vs[j] = vs[j], vs[i] })
+		n := d.cfg.Pick(2, 5)
+		for i := 0; i < len(vs) && i < n; i++ {
+			sl.set(vs[i].V)
+			v, _ := json.Marshal(obj)
+			o, _, ds := d.observe(v, hi)
+			d.rep.Count("near-string:" + vs[i].Name)
+			if o.Class == "ok" && o.Root == base.Root {
+				d.fail(fmt.Sprintf("replacing the string at %v by the different string %s (%s) does not change the root", lf.DocPath, jsonOf(vs[i].V), vs[i].Name),
+					failInput{Kind: "pair-diff", Class: "c03-value-unbound", Doc: string(doc.Bytes), Other: string(v), Hasher: hi, Leaf: &lf, Siblings: sib, Note: vs[i].Name})
+			} else if o.Class != "ok" {
+				d.rep.Count("near-string-rejected:" + vs[i].Name)
+			}
+			if ds != nil && i == 0 && rng.Intn(3) == 0 {
+				// model vs implementation on the variant's dataset (entries keep the exact string)
+				d.datasetCase(ds, hi, failInput{Kind: "doc-dataset", Doc: string(v), Hasher: hi}, 1)
+			}
+		}
+	case "int-string", "bool-string", "date", "datetime", "double-string":
+		vs := paddedTyped(raw)
+		pv := vs[rng.Intn(len(vs))]
+		sl.set(pv.V)
+		v, _ := json.Marshal(obj)
+		o, _, ds := d.observe(v, hi)
+		switch {
+		case o.Class != "ok":
+			d.rep.Count("near-typed-rejected:" + pv.Name)
+		case o.Root == base.Root:
+			d.rep.Count("near-typed-same-value:" + pv.Name)
+		default:
+			class := classifySpelling(base, o, lf, sib, true, false)
+			d.rep.Count("near-typed-accepted:" + pv.Name)
+			d.fail(fmt.Sprintf("padding the %s value at %v to %s (%s) is accepted and changes the result: root %s vs %s", lf.Kind, lf.DocPath, jsonOf(pv.V), pv.Name, o.Root, base.Root),
+				failInput{Kind: "pair-same", Class: class, Doc: string(doc.Bytes), Other: string(v), Hasher: hi, Leaf: &lf, Siblings: sib, Lexical: true, Note: pv.Name})
+		}
+		if ds != nil && rng.Intn(4) == 0 {
+			d.datasetCase(ds, hi, failInput{Kind: "doc-dataset", Doc: string(v), Hasher: hi}, 1)
 		}
 	}
 }
